@@ -43,6 +43,9 @@ pub struct CfbLayout {
     pub dir_order_seed: u64,
     /// bytes appended after the last sector
     pub trailing: u16,
+    /// FAT sectors beyond the minimum (an over-allocated FAT: their entries are free sectors that
+    /// lie beyond the end of the file)
+    pub spare_fat: u8,
 }
 
 struct Rng(u64);
@@ -192,6 +195,16 @@ pub fn write_cfb(streams: &[CfbStream], layout: &CfbLayout) -> (Vec<u8>, CfbInfo
             break;
         }
         fat_sectors += 1;
+    }
+    if layout.spare_fat > 0 {
+        fat_sectors += layout.spare_fat as usize;
+        loop {
+            difat_sectors = if fat_sectors <= 109 { 0 } else { (fat_sectors - 109).div_ceil(per_sector - 1) };
+            if fat_sectors * per_sector >= data_sectors + fat_sectors + difat_sectors {
+                break;
+            }
+            fat_sectors += 1;
+        }
     }
     let total = data_sectors + fat_sectors + difat_sectors;
     let mut phys: Vec<u32> = (0..total as u32).collect();
